@@ -179,7 +179,7 @@ def build_coq(prop, tier, report):
     axioms = set()
     for blk in re.finditer(r"Axioms:\n((?:.+\n?)+?)(?=\n\S|\Z)", log):
         for line in blk.group(1).splitlines():
-            m = re.match(r"^([A-Za-z_][\w.']*)\s*(?::|$)", line)
+            m = re.match(r"^([A-Za-z_][\w.']*) :(?: |$)", line)
             if m and m.group(1) != "Axioms":
                 axioms.add(m.group(1))
     closed = len(re.findall(r"Closed under the global context", log))
